@@ -151,7 +151,7 @@ OPNAMES = ['a', 'b', 'Z' * 255, 'n005', 'q' * 120, 'sub', '/T/abs', '/n005', '/r
 def bfs_ops():
     ops = []
     for n in OPNAMES:
-        ops += [('mkdir', n), ('create', n), ('symlink', n), ('mknod', n), ('rm', n), ('rmdir', n), ('link', n)]
+        ops += [('mkdir', n), ('create', n), ('symlink', n), ('slowlink', n), ('mknod', n), ('rm', n), ('rmdir', n), ('link', n)]
     return ops
 
 def apply_model(model, tn, op, n, first_existing):
@@ -171,6 +171,9 @@ def apply_model(model, tn, op, n, first_existing):
     if op == 'symlink':
         if n not in m: m[n] = (S_LNK, 1)
         return m, tn, ['symlink %s target' % n]
+    if op == 'slowlink':           # a symlink whose target needs a block of its own (allocated while the directory may be growing)
+        if n not in m: m[n] = (S_LNK, 1)
+        return m, tn, ['symlink %s %s' % (n, 'T' * 100)]
     if op == 'mknod':
         if n not in m: m[n] = (S_FIFO, 1)
         return m, tn, ['mknod %s p' % n]
@@ -273,7 +276,7 @@ def main(tier, only=None):
     ck.add(evaluations=steps + trans, distinct_nontrivial=steps + states, states=steps + states, transitions=steps + trans, traces_validated_against_impl=steps + trans,
            rule='(1) for each configuration (linear, indexed with odd index limits, indexed+csum, inline_data directories, no filetype, 4k, large_dir) and name sequence (4-byte, 250-byte, mixed lengths) names are inserted one at a time through debugfs up to 300-700 names '
                 'with e2fsck -fyD re-indexing at 40 and 200 names and, on a copy, at every 16th size and every size from 290 to 400 of the long-name sequence (thorough: every 2nd size),  then removed in 2-4 orders; after the steps the independent listing must equal the model, every name must have the right type and link count, the checker must be clean; '
-                '(2) from every state just before a structural event (new block, index created, index level added) a BFS of depth 1-2 over 63 operations (mkdir, create, symlink, mknod, hard link, rm, rmdir on 9 names incl. a 255-byte one, an existing one, one spelled as an absolute path into the test directory and two root-level names addressed as /name while the current directory is the test directory; the root directory listing and link count are part of the model) with the same oracle',
+                '(2) from every state just before a structural event (new block, index created, index level added) a BFS of depth 1-2 over 72 operations (mkdir, create, fast and slow symlink, mknod, hard link, rm, rmdir on 9 names incl. a 255-byte one, an existing one, one spelled as an absolute path into the test directory and two root-level names addressed as /name while the current directory is the test directory; the root directory listing and link count are part of the model) with the same oracle',
            samples=['sweep indexed/long insert #251', 'bfs indexed_csum/short@113 + mkdir a ; rm n005'])
     ck.assumptions += ['debugfs ln/unlink do not maintain link counts by design; hard links are made with ln + sif links_count', 'hash-colliding names are not constructed']
     return ck.finish()
